@@ -246,7 +246,7 @@ fn cmd_check(args: &[String]) {
         "workers": o.workers,
         "max_tape_words": match o.tier { Tier::Quick => prop.max_tape.0, Tier::Thorough => prop.max_tape.1 },
         "sizes": format!("{:?}", Sizes::of(o.tier)),
-        "fuzz": std::env::var("OHV_FUZZ_SUMMARY").unwrap_or_else(|_| "not part of this tier".into()),
+        "fuzz": fuzz_summary(),
     });
     let ev = evidence_json(prop, o.tier, o.seed, &stats, corpus_n, wall, extra);
     let evdir = vd.join("evidence");
@@ -471,6 +471,24 @@ fn run_scale_child(prop: &Prop) -> Option<Failure> {
             origin: "scale case (large structured input, child process)".into(),
         }),
     }
+}
+
+/// the libFuzzer campaign's summary line (thorough tier), as structured data
+fn fuzz_summary() -> serde_json::Value {
+    let Ok(line) = std::env::var("OHV_FUZZ_SUMMARY") else {
+        return serde_json::json!("not part of this tier (coverage-guided campaign runs in the thorough tier only)");
+    };
+    let num = |k: &str| -> Option<u64> {
+        line.split_whitespace().find_map(|w| w.strip_prefix(k)).and_then(|v| v.parse().ok())
+    };
+    serde_json::json!({
+        "engine": "libFuzzer (cargo-fuzz, sanitizer none), 8 jobs, oracle inside the target",
+        "executions": num("executions="),
+        "max_coverage_counter": num("max_cov="),
+        "corpus_units": num("corpus_units="),
+        "crashes": num("crashes="),
+        "raw": line,
+    })
 }
 
 fn build_name() -> &'static str {
